@@ -9,11 +9,15 @@ What the real objects hold in MUTABLE containers is modelled as heap cells addre
   ori       `_orientation` (scipy Rotation of length N)  `rots`  (integer rotation matrices)
   a0..a3    `_polarization`, `_dimension`, `_moment`, `_pixel` (ndarrays)   `ints` (flattened)
   style     `_style` (style object; `none` = not created yet)               `style` (label + properties)
+  kids      `_children` (the list object of a Collection)                   `list`  (content = `f.children`)
 
 Immutable data stays in the record: class, scalar attributes (`_current`, `_diameter`, `handedness`) and the
 pending style keyword arguments `_style_kwargs` of a lazily un-initialised style.  The `_children` /
 `_sources` / `_sensors` / `_collections` lists are represented by `f` (one list per owner id; that no link crosses
-between original and copy is `copy_shares_no_node`).
+between original and copy is `copy_shares_no_node`); the IDENTITY of the `_children` list object is tracked in slot
+`kids`: it is created with the Collection, `add` (`+=`), `remove` (`list.remove`), `parent=` and a REFUSED
+children / sources / sensors / collections assignment keep it (the refusal puts the old list object back, repo fix
+9176cc9), an ACCEPTED assignment installs a new list, `copy()` gives every cloned collection its own.
 
 Allocation follows the code: a statement that REBINDS an attribute to a new array / Rotation / style object takes
 a fresh address (`setFresh`), a statement that writes INTO the existing object keeps the address (`write`):
@@ -41,17 +45,17 @@ abbrev AVec := V3 Int
 abbrev ARot := M3 Int
 
 inductive Slot where
-  | pos | ori | style | a0 | a1 | a2 | a3
+  | pos | ori | style | a0 | a1 | a2 | a3 | kids
   deriving DecidableEq, Repr
 
 namespace Slot
 def code : Slot → Nat
-  | pos => 0 | ori => 1 | style => 2 | a0 => 3 | a1 => 4 | a2 => 5 | a3 => 6
+  | pos => 0 | ori => 1 | style => 2 | a0 => 3 | a1 => 4 | a2 => 5 | a3 => 6 | kids => 7
 def ofCode : Nat → Slot
-  | 0 => pos | 1 => ori | 2 => style | 3 => a0 | 4 => a1 | 5 => a2 | _ => a3
-def all : List Slot := [pos, ori, style, a0, a1, a2, a3]
+  | 0 => pos | 1 => ori | 2 => style | 3 => a0 | 4 => a1 | 5 => a2 | 6 => a3 | _ => kids
+def all : List Slot := [pos, ori, style, a0, a1, a2, a3, kids]
 /-- number of slots = stride of the address blocks handed out by `deepcopy` -/
-def count : Nat := 7
+def count : Nat := 8
 /-- array attribute number `k` (0 polarization, 1 dimension, 2 moment, 3 pixel) -/
 def arr : Nat → Option Slot
   | 0 => some a0 | 1 => some a1 | 2 => some a2 | 3 => some a3 | _ => none
@@ -80,6 +84,8 @@ inductive Cell where
   | rots (l : List ARot)
   | ints (l : List Int)
   | style (d : SData)
+  /-- a `_children` list object; its content is `f.children` of the collection that holds it -/
+  | list
   deriving DecidableEq, Repr
 
 structure NodeA where
@@ -292,7 +298,8 @@ structure Spec where
 def initNode (s : AForest) (i : Nat) (sp : Spec) : AForest :=
   let s1 : AForest := { s with na := upd s.na i { NodeA.blank sp.cls with scal := sp.scal, skw := sp.skw } }
   let s2 := (s1.setFresh i .pos (.vecs sp.pos)).setFresh i .ori (.rots (sp.pos.map fun _ => (1 : ARot)))
-  sp.arrs.foldl (fun t e => t.setFresh i e.1 (.ints e.2)) s2
+  let s3 := sp.arrs.foldl (fun t e => t.setFresh i e.1 (.ints e.2)) s2
+  if sp.kind = .coll then s3.setFresh i .kids .list else s3
 
 def init (specs : List Spec) : AForest :=
   let s0 : AForest := { f := Forest.init (specs.map (·.kind)), na := fun _ => NodeA.blank 0,
@@ -323,13 +330,24 @@ inductive AOp where
 
 namespace AForest
 
+/-- the collection whose `_children` list object a tree operation replaces when it is accepted -/
+def newList : FOp → Option Nat
+  | .setChildren c _ => some c
+  | .setTyped c _ _ => some c
+  | _ => none
+
 /-- one operation; second component: accepted?  Operations on objects that do not exist are refused. -/
 def step (s : AForest) : AOp → AForest × Bool
   | .tree op =>
     let r := s.f.step op
     let s1 : AForest := { s with f := r.1 }
     -- `a + b` created a new Collection (default position, unit orientation, no style)
-    if r.1.n = s.f.n + 1 then (s1.initNode s.f.n collSpec, r.2) else (s1, r.2)
+    if r.1.n = s.f.n + 1 then (s1.initNode s.f.n collSpec, r.2)
+    else
+      -- an ACCEPTED children / sources / sensors / collections assignment installs a new `_children` list object
+      match (if r.2 then newList op else none) with
+      | some c => (s1.setFresh c .kids .list, r.2)
+      | none => (s1, r.2)
   | .move x inp start => if x < s.f.n then (s.move x inp start, true) else (s, false)
   | .rotate x rot anchor start => if x < s.f.n then (s.rotate x rot anchor start, true) else (s, false)
   | .setPos x p => if x < s.f.n && !p.isEmpty then (setPos (s.f.n + 1) s x p, true) else (s, false)
